@@ -484,6 +484,24 @@ def run(cx, rep):
     if lp:
         calls = [c[0] for c in this_calls(lp["function"])]
         rep.ob("C13.3", "writer/length-before-bytes", calls[:2] == [u32_w, bytes_w], "the byte length must be written before the bytes (calls %s)" % calls, mod.loc(lp))
+    # ---------------------------------------------------------------- C13.8
+    rep.rule("C13.8", "text reaches the digest as the UTF-8 encoding of the whole string")
+    # `TextEncoder.encodeInto(s, dest)` stops at the last whole character that fits into dest and reports how much it
+    # read - it never throws.  A writer that encodes into a fixed scratch buffer digests a PREFIX of long strings (a
+    # guard on `s.length` counts UTF-16 units, not bytes), so two types that differ only in the tail of a long literal,
+    # property name or pattern share a digest.  Decided: hash.ts contains no bounded-destination encoding call.
+    def bounded_encodes(m_):
+        return [x for x in walk(m_.module) if x["type"] == "CallExpression" and method_call(x) and method_call(x)[1] == "encodeInto"]
+    be = bounded_encodes(mod)
+    for x in be:
+        rep.ob("C13.8", "encodeInto#%d" % be.index(x), False,
+               "hash.ts encodes text with encodeInto(..) into a fixed-size destination: characters that do not fit are silently dropped, so the digest covers only a prefix of long (non-ASCII) strings and validators that differ in the rest collide", mod.loc(x))
+    rep.ob("C13.8", "scan", True, sample={"bounded_destination_encodings": len(be)})
+    try:
+        cm_ = cx.ts("canary/ts/encode.ts")
+        rep.ob("C13.8", "control/canary-encodeInto", len(bounded_encodes(cm_)) == 1, "positive control: canary/ts/encode.ts must yield one encodeInto call", "canary/ts/encode.ts")
+    except Exception as e:
+        rep.ob("C13.8", "control/canary-encodeInto", False, "positive control could not be evaluated: %s" % e, "canary/ts/encode.ts")
     # ---------------------------------------------------------------- C13.6
     rep.rule("C13.6", "the writer's position advances by the number of bytes of every write")
     # A recursive reference is encoded as the stream position at which its target began (BaseRefRuntype.hash256 reads
